@@ -185,6 +185,9 @@ class _EpydocReader(StandaloneReader):
         is_fatal = level >= Reporter.ERROR_LEVEL
 
         linenum: Optional[int] = error.get('line')
+        if linenum:
+            # Docutils line numbers start at 1, the ones of ParseError at 0.
+            linenum = linenum - 1
 
         msg = ''.join(c.astext() for c in error)
 
